@@ -1,5 +1,351 @@
-From Coq Require Import ZArith QArith List Bool Lia.
-Require Import SkV.Lib.Base SkV.Lib.ZRange SkV.C11.Model SkV.C03.Model.
+(* C03 proofs: prediction index, cutoff after fit / update / a whole history, one value per step
+   and finiteness for the modelled leaves, shift-equivariance. *)
+From Coq Require Import ZArith QArith List Bool Lia ZifyBool.
+Require Import SkV.Lib.Base SkV.Lib.ZRange SkV.C11.Model SkV.C11.Proofs SkV.C03.Model.
 Import ListNotations.
 Open Scope Z_scope.
-Lemma stub_true : True. Proof. exact I. Qed.
+Ltac Zify.zify_post_hook ::= Z.to_euclidean_division_equations.
+
+(* ---- prediction index ------------------------------------------------------------------------------ *)
+
+Lemma sorted_lt_map_add c : forall l, sorted_lt l -> sorted_lt (map (fun r => c + r) l).
+Proof.
+  induction l as [|a t IH]; intro H; [exact I|].
+  destruct t as [|b t']; [exact I|].
+  cbn [map sorted_lt] in *. destruct H as [Hab Hs]. split; [lia|]. apply IH. exact Hs.
+Qed.
+
+Lemma predict_index st h :
+  length (pred_index st h) = length (hlist h) /\
+  (forall l, h = Rel l -> pred_index st h = map (fun r => cutoff st + r) l) /\
+  (forall l, h = Abs l -> pred_index st h = l) /\
+  (sorted_lt (hlist h) -> sorted_lt (pred_index st h)).
+Proof.
+  unfold pred_index, to_absolute. destruct h as [l|l]; cbn [hlist].
+  - rewrite map_length. repeat split.
+    + intros l' E. inversion E. reflexivity.
+    + intros l' E. discriminate.
+    + apply sorted_lt_map_add.
+  - repeat split.
+    + intros l' E. discriminate.
+    + intros l' E. inversion E. reflexivity.
+    + tauto.
+Qed.
+
+Lemma used_fh_spec hf hp h : used_fh hf hp = Ok h ->
+  (hp = Some h) \/ (hp = None /\ hf = Some h).
+Proof.
+  unfold used_fh. destruct hp as [a|]; [intro E; inversion E; left; reflexivity|].
+  destruct hf as [a|]; [intro E; inversion E; right; split; reflexivity|discriminate].
+Qed.
+
+(* ---- cutoff -------------------------------------------------------------------------------------------- *)
+
+Lemma cutoff_after_fit s : cutoff (fit_state s) = last_time s.
+Proof. reflexivity. Qed.
+
+Lemma cutoff_after_update st tb b :
+  cutoff (update_state st (tb, b)) = match b with [] => cutoff st | _ => tb + zlen b - 1 end.
+Proof. unfold update_state. cbn [snd fst]. destruct b; reflexivity. Qed.
+
+(* the cutoff after a whole history, written without the state *)
+Definition next_cutoff (c : Z) (b : Z * list oq) : Z :=
+  match snd b with [] => c | _ => fst b + zlen (snd b) - 1 end.
+
+Lemma cutoff_fold : forall ups st,
+  cutoff (fold_left update_state ups st) = fold_left next_cutoff ups (cutoff st).
+Proof.
+  induction ups as [|b t IH]; intro st; [reflexivity|].
+  cbn [fold_left]. rewrite IH. f_equal. unfold update_state, next_cutoff. destruct (snd b); reflexivity.
+Qed.
+
+Lemma cutoff_after_history s ups :
+  cutoff (run_state s ups) = fold_left next_cutoff ups (last_time s).
+Proof. unfold run_state. rewrite cutoff_fold. reflexivity. Qed.
+
+Lemma cutoff_trace_spec : forall ups st,
+  length (cutoff_trace st ups) = S (length ups) /\
+  last (cutoff_trace st ups) 0 = cutoff (fold_left update_state ups st) /\
+  hd 0 (cutoff_trace st ups) = cutoff st.
+Proof.
+  induction ups as [|b t IH]; intro st; [repeat split|].
+  cbn [cutoff_trace fold_left length]. destruct (IH (update_state st b)) as [H1 [H2 H3]].
+  repeat split.
+  - rewrite H1. reflexivity.
+  - rewrite <- H2. destruct t; reflexivity.
+Qed.
+
+(* when every non-empty batch continues the observed series, the cutoff is always the last
+   observed time point and the first time point never changes *)
+Definition coherent (st : state) : Prop := cutoff st = last_time (obs st).
+Fixpoint contiguous (st : state) (ups : list (Z * list oq)) : Prop :=
+  match ups with
+  | [] => True
+  | b :: t => (snd b = [] \/ fst b = cutoff st + 1) /\ contiguous (update_state st b) t
+  end.
+
+Lemma coherent_update st b : coherent st -> (snd b = [] \/ fst b = cutoff st + 1) ->
+  coherent (update_state st b) /\ t0 (obs (update_state st b)) = t0 (obs st).
+Proof.
+  unfold coherent, update_state, last_time. intros Hc Hb. destruct b as [tb l]. cbn [fst snd] in *.
+  destruct l as [|x l]; [split; [exact Hc|reflexivity]|].
+  destruct Hb as [Hb|Hb]; [discriminate|]. cbn [cutoff obs t0 ys]. split; [|reflexivity].
+  rewrite zlen_app. lia.
+Qed.
+
+Lemma coherent_history : forall ups st, coherent st -> contiguous st ups ->
+  coherent (fold_left update_state ups st) /\
+  t0 (obs (fold_left update_state ups st)) = t0 (obs st).
+Proof.
+  induction ups as [|b t IH]; intros st Hc Hk; [split; [exact Hc|reflexivity]|].
+  cbn [fold_left]. destruct Hk as [Hb Hk]. destruct (coherent_update st b Hc Hb) as [Hc' Ht].
+  destruct (IH (update_state st b) Hc' Hk) as [H1 H2]. split; [exact H1|]. rewrite H2. exact Ht.
+Qed.
+
+Lemma coherent_run s ups : contiguous (fit_state s) ups ->
+  cutoff (run_state s ups) = last_time (obs (run_state s ups)) /\
+  t0 (obs (run_state s ups)) = t0 s.
+Proof. intro H. apply (coherent_history ups (fit_state s)); [reflexivity|exact H]. Qed.
+
+(* ---- shifting the time axis ------------------------------------------------------------------------------ *)
+
+Lemma shift_fit k s : fit_state (shift_series k s) = shift_state k (fit_state s).
+Proof. unfold fit_state, shift_state, shift_series, last_time. cbn [obs cutoff t0 ys]. f_equal. lia. Qed.
+
+Lemma shift_update k st b :
+  update_state (shift_state k st) (shift_batch k b) = shift_state k (update_state st b).
+Proof.
+  unfold update_state, shift_batch, shift_state, shift_series. destruct b as [tb l]. cbn [fst snd].
+  destruct l as [|x l]; [reflexivity|]. cbn [obs cutoff t0 ys]. f_equal. lia.
+Qed.
+
+Lemma shift_fold k : forall ups st,
+  fold_left update_state (map (shift_batch k) ups) (shift_state k st)
+  = shift_state k (fold_left update_state ups st).
+Proof.
+  induction ups as [|b t IH]; intro st; [reflexivity|].
+  cbn [map fold_left]. rewrite shift_update. apply IH.
+Qed.
+
+Lemma shift_run k s ups :
+  run_state (shift_series k s) (map (shift_batch k) ups) = shift_state k (run_state s ups).
+Proof. unfold run_state. rewrite shift_fit. apply shift_fold. Qed.
+
+Lemma shift_trace k : forall ups st,
+  cutoff_trace (shift_state k st) (map (shift_batch k) ups)
+  = map (fun c => c + k) (cutoff_trace st ups).
+Proof.
+  induction ups as [|b t IH]; intro st; [reflexivity|].
+  cbn [map cutoff_trace]. f_equal. rewrite shift_update. apply IH.
+Qed.
+
+Lemma shift_index k st h :
+  pred_index (shift_state k st) (shift_h k h) = map (fun t => t + k) (pred_index st h).
+Proof.
+  unfold pred_index, to_absolute, shift_h, shift_state. cbn [cutoff]. destruct h as [l|l]; [|reflexivity].
+  rewrite map_map. apply map_ext. intro r. lia.
+Qed.
+
+Lemma shift_relative k c h : to_relative (c + k) (shift_h k h) = to_relative c h.
+Proof.
+  unfold to_relative, shift_h. destruct h as [l|l]; [reflexivity|].
+  rewrite map_map. apply map_ext. intro t. lia.
+Qed.
+
+(* the values of the modelled leaves do not depend on where the time axis starts *)
+Lemma shift_leaf_values k f train st h :
+  leaf_values f (shift_series k train) (shift_state k st) (shift_h k h) = leaf_values f train st h.
+Proof.
+  unfold leaf_values. cbn [shift_state shift_series cutoff obs ys t0]. rewrite shift_relative.
+  destruct f as [s sp wlo|degree ic]; [reflexivity|].
+  destruct (poly_fit degree ic (ys train)); [|reflexivity]. f_equal. apply map_ext. intro r.
+  do 3 f_equal. lia.
+Qed.
+
+Lemma shift_equivariance k leaf s ups refit h :
+  model_run leaf (shift_series k s) (map (shift_batch k) ups) refit (shift_h k h)
+  = let '(trace, idx, v) := model_run leaf s ups refit h in
+    (map (fun c => c + k) trace, map (fun t => t + k) idx, v).
+Proof.
+  unfold model_run. rewrite shift_run, shift_fit, shift_trace, shift_index. cbv zeta.
+  f_equal. destruct leaf as [f|]; [|reflexivity]. f_equal.
+  destruct refit.
+  - change (obs (shift_state k (run_state s ups))) with (shift_series k (obs (run_state s ups))).
+    apply shift_leaf_values.
+  - apply shift_leaf_values.
+Qed.
+
+(* ---- one value per requested step ------------------------------------------------------------------------ *)
+
+Lemma index_all_length : forall (l : list oq) idx v, index_all l idx = Ok v -> length v = length idx.
+Proof.
+  induction idx as [|i t IH]; intros v H.
+  - inversion H. reflexivity.
+  - cbn [index_all] in H. destruct (zget l i); [|discriminate].
+    destruct (index_all l t) as [v'|]; [|discriminate]. inversion H. cbn [length]. f_equal.
+    apply IH. reflexivity.
+Qed.
+
+Lemma kernel_length s sp wl w hs v : kernel s sp wl w hs = Ok v -> length v = length hs.
+Proof.
+  unfold kernel, steps_vals, const_all. intro H.
+  destruct ((zlen w =? 0) || all_nan w); [inversion H; apply map_length|].
+  destruct s.
+  - destruct (sp =? 1); [inversion H; apply map_length|].
+    apply index_all_length in H. rewrite map_length in H. exact H.
+  - destruct (sp =? 1); [inversion H; apply map_length|].
+    match type of H with (if ?c then _ else _) = _ => destruct c end; [|discriminate].
+    apply index_all_length in H. rewrite map_length in H. exact H.
+  - destruct (wl =? 1); [inversion H; apply map_length|].
+    destruct (hd None w); [|discriminate]. destruct (last w None); [|discriminate].
+    inversion H. apply map_length.
+Qed.
+
+Lemma leaf_one_value_per_step f train st h vals :
+  all_pos (to_relative (cutoff st) h) -> leaf_values f train st h = Ok vals ->
+  length vals = length (hlist h).
+Proof.
+  intros Hpos H. unfold leaf_values in H.
+  assert (Hl : length (to_relative (cutoff st) h) = length (hlist h)).
+  { destruct h; cbn [to_relative hlist]; [reflexivity|apply map_length]. }
+  destruct f as [s sp wlo|degree ic].
+  - destruct (resolve_wl s sp wlo (zlen (ys train))) as [wl|]; [|discriminate].
+    rewrite predict_oos in H by exact Hpos. rewrite <- Hl.
+    destruct (to_relative (cutoff st) h) as [|r t] eqn:E; [inversion H; reflexivity|].
+    apply kernel_length in H. exact H.
+  - destruct (poly_fit degree ic (ys train)); [|discriminate]. inversion H.
+    rewrite map_length. exact Hl.
+Qed.
+
+(* ---- finite forecasts for finite data ------------------------------------------------------------------- *)
+
+Definition finite (l : list oq) : Prop := forall x, In x l -> x <> None.
+
+Lemma finite_cons x l : finite (x :: l) <-> x <> None /\ finite l.
+Proof.
+  unfold finite. split.
+  - intro H. split; [apply H; left; reflexivity|intros y Hy; apply H; right; exact Hy].
+  - intros [H1 H2] y [<-|Hy]; [exact H1|apply H2; exact Hy].
+Qed.
+
+Lemma finite_znth : forall l i, finite l -> 0 <= i < zlen l -> znth l i <> None.
+Proof.
+  induction l as [|x l IH]; intros i Hf Hi.
+  - unfold zlen in Hi. cbn [length] in Hi. lia.
+  - apply finite_cons in Hf. destruct Hf as [Hx Hl]. rewrite znth_cons.
+    destruct (i =? 0) eqn:E; [exact Hx|]. apply IH; [exact Hl|]. rewrite zlen_cons in Hi. lia.
+Qed.
+
+Lemma in_skipn {A} (k : nat) (l : list A) x : In x (skipn k l) -> In x l.
+Proof. intro H. rewrite <- (firstn_skipn k l). apply in_or_app. right. exact H. Qed.
+Lemma in_firstn {A} (k : nat) (l : list A) x : In x (firstn k l) -> In x l.
+Proof. intro H. rewrite <- (firstn_skipn k l). apply in_or_app. left. exact H. Qed.
+
+Lemma finite_window ys c wl : finite ys -> finite (window ys c wl).
+Proof.
+  intros H x Hx. apply H. unfold window, zslice in Hx. apply in_firstn in Hx. apply in_skipn in Hx.
+  exact Hx.
+Qed.
+
+Lemma finite_all_nan w : finite w -> w <> [] -> all_nan w = false.
+Proof.
+  intros Hf Hne. destruct w as [|x w]; [congruence|]. apply finite_cons in Hf. destruct Hf as [Hx _].
+  destruct x; [reflexivity|congruence].
+Qed.
+
+Lemma finite_sel {A} P : forall (l : list A) i x, In x (sel P i l) -> In x l.
+Proof.
+  induction l as [|y l IH]; intros i x H; [exact H|]. cbn [sel] in H.
+  destruct (P i); [destruct H as [<-|H]; [left; reflexivity|right; eapply IH; exact H]|].
+  right. eapply IH. exact H.
+Qed.
+
+Lemma sel_nonempty {A} P : forall (l : list A) i j, i <= j < i + zlen l -> P j = true -> sel P i l <> [].
+Proof.
+  induction l as [|y l IH]; intros i j Hj HP.
+  - unfold zlen in Hj. cbn [length] in Hj. lia.
+  - cbn [sel]. rewrite zlen_cons in Hj. destruct (Z.eq_dec i j) as [->|Hne].
+    + rewrite HP. discriminate.
+    + destruct (P i); [discriminate|]. apply (IH (i + 1) j); [lia|exact HP].
+Qed.
+
+Lemma nanmean_finite l : finite l -> l <> [] -> nanmean l <> None.
+Proof.
+  intros Hf Hne. unfold nanmean. destruct l as [|x l]; [congruence|].
+  apply finite_cons in Hf. destruct Hf as [Hx _]. destruct x as [q|]; [|congruence].
+  cbn [somes flat_map app]. discriminate.
+Qed.
+
+(* the kernel on a complete, NaN-free window returns a number for every step - except the drift
+   strategy on a window of length 1 (see Refuted.v) *)
+Lemma kernel_finite s sp wl w hs v :
+  1 <= sp -> 1 <= wl -> zlen w = wl -> finite w -> sorted_lt hs -> all_pos hs ->
+  match s with
+  | SLast => wl = (if sp =? 1 then 1 else sp)
+  | SMean => sp = 1 \/ sp <= wl
+  | SDrift => 2 <= wl
+  end ->
+  kernel s sp wl w hs = Ok v -> finite v.
+Proof.
+  intros Hsp Hwl Hlen Hf Hs Hp Hcfg H.
+  assert (Hne : w <> []) by (intro E; subst w; unfold zlen in Hlen; cbn [length] in Hlen; lia).
+  destruct s.
+  - destruct (Z.eq_dec sp 1) as [->|Hsp1].
+    + rewrite kernel_last in H. inversion H. intros x Hx. apply in_map_iff in Hx.
+      destruct Hx as [h [<- _]]. apply finite_znth; [exact Hf|lia].
+    + destruct (sp =? 1) eqn:E; [lia|]. rewrite Hcfg in H, Hlen.
+      rewrite kernel_seasonal_last in H by (try assumption; lia). inversion H.
+      intros x Hx. apply in_map_iff in Hx. destruct Hx as [h [<- _]].
+      pose proof (Z.mod_pos_bound (h - 1) sp ltac:(lia)). apply finite_znth; [exact Hf|lia].
+  - destruct (Z.eq_dec sp 1) as [->|Hsp1].
+    + rewrite kernel_mean in H. inversion H. intros x Hx. apply in_map_iff in Hx.
+      destruct Hx as [h [<- _]]. apply nanmean_finite; assumption.
+    + destruct Hcfg as [Hc|Hc]; [lia|].
+      rewrite kernel_seasonal_mean in H by (try assumption; lia). inversion H.
+      intros x Hx. apply in_map_iff in Hx. destruct Hx as [h [<- _]].
+      unfold seasonal_mean_spec. apply nanmean_finite.
+      * intros y Hy. apply Hf. eapply finite_sel. exact Hy.
+      * pose proof (Z.mod_pos_bound (wl - 1 + h) sp ltac:(lia)) as B.
+        apply (sel_nonempty _ w 0 ((wl - 1 + h) mod sp)); [lia|].
+        unfold congb. apply Z.eqb_eq. rewrite Zminus_mod, Zmod_mod, Z.sub_diag.
+        apply Z.mod_0_l. lia.
+  - destruct (znth w 0) as [a|] eqn:Ea; [|exfalso; revert Ea; apply finite_znth; [exact Hf|lia]].
+    destruct (znth w (wl - 1)) as [b|] eqn:Eb; [|exfalso; revert Eb; apply finite_znth; [exact Hf|lia]].
+    rewrite (kernel_drift sp wl w a b hs) in H by assumption. inversion H.
+    intros x Hx. apply in_map_iff in Hx. destruct Hx as [h [<- _]]. discriminate.
+Qed.
+
+(* lifted to the fitted NaiveForecaster / PolynomialTrendForecaster, after any updates: finite
+   observations and an out-of-sample horizon give finite forecasts *)
+Lemma leaf_finite f train st h vals :
+  finite (ys (obs st)) -> sorted_lt (to_relative (cutoff st) h) ->
+  all_pos (to_relative (cutoff st) h) ->
+  match f with
+  | FNaive s sp wlo =>
+      1 <= sp /\ (forall w, wlo = Some w -> 1 <= w) /\ 1 <= zlen (ys train) /\
+      zlen (ys train) <= zlen (ys (obs st)) /\
+      ~ (s = SDrift /\ documented_wl s sp wlo (zlen (ys train)) = 1) /\
+      (s = SMean -> sp = 1 \/ sp <= documented_wl s sp wlo (zlen (ys train)))
+  | FPoly _ _ => True
+  end ->
+  leaf_values f train st h = Ok vals -> finite vals.
+Proof.
+  intros Hf Hs Hp Hcfg H. unfold leaf_values in H. destruct f as [s sp wlo|degree ic].
+  - destruct Hcfg as [Hsp [Hwlo [Hn [Hle [Hdrift Hmean]]]]].
+    destruct (resolve_wl s sp wlo (zlen (ys train))) as [wl|] eqn:Hres; [|discriminate].
+    apply resolve_ok in Hres. destruct Hres as [Hw [Hwn Hrej]].
+    rewrite predict_oos in H by exact Hp.
+    destruct (to_relative (cutoff st) h) as [|r t] eqn:E; [inversion H; intros x []|].
+    assert (Hwl1 : 1 <= wl).
+    { subst wl. unfold documented_wl. destruct s; [destruct (sp =? 1); lia| |];
+        (destruct wlo as [w|]; [apply Hwlo; reflexivity|lia]). }
+    destruct (window_last (ys (obs st)) wl ltac:(lia)) as [_ Hlen].
+    eapply (kernel_finite s sp wl _ (r :: t) vals); try eassumption.
+    + apply finite_window. exact Hf.
+    + destruct s.
+      * subst wl. reflexivity.
+      * rewrite Hw. apply Hmean. reflexivity.
+      * assert (wl <> 1) by (intro E1; apply Hdrift; split; [reflexivity|congruence]). lia.
+  - destruct (poly_fit degree ic (ys train)); [|discriminate]. inversion H.
+    intros x Hx. apply in_map_iff in Hx. destruct Hx as [r [<- _]]. discriminate.
+Qed.
